@@ -298,6 +298,7 @@ PROPS = {
         "tests": [
             {"name": "TestC20Exhaustive", "quick": None, "thorough": None},
             {"name": "TestC20Random", "quick": 20000, "thorough": 100000, "shards": 8},
+            {"name": "TestC20GraphQL", "quick": 60, "shards_quick": 2, "thorough": 400, "shards": 8},
         ],
     },
 }
